@@ -42,6 +42,8 @@ import (
 	"time"
 
 	sdkmath "cosmossdk.io/math"
+	wasmkeeper "github.com/CosmWasm/wasmd/x/wasm/keeper"
+	wasmtypes "github.com/CosmWasm/wasmd/x/wasm/types"
 	tmdb "github.com/cometbft/cometbft-db"
 	abci "github.com/cometbft/cometbft/abci/types"
 	"github.com/cometbft/cometbft/libs/log"
@@ -161,6 +163,14 @@ type world struct {
 	valCons []*ed25519.PrivKey
 	eths    []evmtest.EthPrivKeyAcc
 	gen     []byte
+	wasmBz  []byte // hello_world_counter.wasm of the tree under test
+}
+
+func repoRoot() string {
+	if r := os.Getenv("VERIF_REPO"); r != "" {
+		return r
+	}
+	return "/repo"
 }
 
 func accAddr(k *secp256k1.PrivKey) sdk.AccAddress { return sdk.AccAddress(k.PubKey().Address()) }
@@ -200,6 +210,9 @@ func newWorld() *world {
 		w.eths = append(w.eths, ethAcc(fmt.Sprintf("verif-c01-eth-%d", i)))
 	}
 	w.gen = w.buildGenesis()
+	if bz, err := os.ReadFile(repoRoot() + "/x/evm/precompile/test/hello_world_counter.wasm"); err == nil {
+		w.wasmBz = bz
+	}
 	return w
 }
 
@@ -492,6 +505,10 @@ type replica struct {
 	tfDenoms    []string
 	tfOwner     []int
 	granted     map[[2]int]bool
+	wasmCode    uint64           // code id of hello_world_counter.wasm on this replica (0 = not stored yet)
+	wasmAddrs   []sdk.AccAddress // instantiated counter contracts
+	wasmOwner   []int            // their creator = admin (user index)
+	dgReg       map[int]bool     // contract index -> registered for dev-gas fee share
 }
 
 func (w *world) newReplica() *replica {
@@ -799,6 +816,57 @@ func (r *replica) apply(op c01Op) []abci.ResponseDeliverTx {
 	one := func(x abci.ResponseDeliverTx) []abci.ResponseDeliverTx { return []abci.ResponseDeliverTx{x} }
 	none := []abci.ResponseDeliverTx{}
 	switch op.Kind {
+	case "wasmdeploy": // keeper-level (as a genesis-like setup inside the block): store the counter code once, instantiate C contracts
+		if w.wasmBz == nil {
+			return none
+		}
+		u := op.A % nUsers
+		creator := accAddr(w.users[u])
+		pk := wasmkeeper.NewDefaultPermissionKeeper(c.App.WasmKeeper)
+		if r.wasmCode == 0 {
+			id, _, err := pk.Create(c.Ctx(), creator, w.wasmBz, &wasmtypes.AccessConfig{Permission: wasmtypes.AccessTypeEverybody})
+			if err != nil {
+				panic(err)
+			}
+			r.wasmCode = id
+		}
+		for i := 0; i < op.C && len(r.wasmAddrs) < 12; i++ {
+			a, _, err := pk.Instantiate(c.Ctx(), r.wasmCode, creator, creator, []byte(`{"count": 0}`), fmt.Sprintf("c01-%d", len(r.wasmAddrs)), nil)
+			if err != nil {
+				panic(err)
+			}
+			r.wasmAddrs = append(r.wasmAddrs, a)
+			r.wasmOwner = append(r.wasmOwner, u)
+		}
+		return none
+	case "dgreg": // x/devgas: register contract A for fee share with the FRESH withdrawer B (or move an existing registration to it)
+		if len(r.wasmAddrs) == 0 {
+			return none
+		}
+		i := op.A % len(r.wasmAddrs)
+		owner := w.users[r.wasmOwner[i]]
+		if r.dgReg == nil {
+			r.dgReg = map[int]bool{}
+		}
+		var msg sdk.Msg = &devgastypes.MsgRegisterFeeShare{ContractAddress: r.wasmAddrs[i].String(), DeployerAddress: accAddr(owner).String(), WithdrawerAddress: freshAddr(op.B).String()}
+		if r.dgReg[i] {
+			msg = &devgastypes.MsgUpdateFeeShare{ContractAddress: r.wasmAddrs[i].String(), DeployerAddress: accAddr(owner).String(), WithdrawerAddress: freshAddr(op.B).String()}
+		}
+		res := r.deliverCosmos(owner, 800_000, fee, msg)
+		if res.Code == 0 {
+			r.dgReg[i] = true
+		}
+		return one(res)
+	case "wasmexec": // ONE tx with one MsgExecuteContract per entry of L (the dev-gas ante pays every registered withdrawer)
+		if len(r.wasmAddrs) == 0 || len(op.L) == 0 {
+			return none
+		}
+		u := w.users[op.A%nUsers]
+		var msgs []sdk.Msg
+		for _, ci := range op.L {
+			msgs = append(msgs, &wasmtypes.MsgExecuteContract{Sender: accAddr(u).String(), Contract: r.wasmAddrs[ci%len(r.wasmAddrs)].String(), Msg: []byte(`{"increment":{}}`)})
+		}
+		return one(r.deliverCosmos(u, uint64(1_000_000+600_000*len(msgs)), fee, msgs...))
 	case "bank":
 		from := w.users[op.A%nUsers]
 		var to sdk.AccAddress
@@ -1536,8 +1604,27 @@ func genDiff(r *Rng, opener int) c01Input {
 	fresh := 1000 + r.Intn(1000)*50
 	next := func() int { fresh++; return fresh }
 	prevFailed := false
+	// wasm + x/devgas: contracts registered for fee share with withdrawers that have no account yet, executed several per tx
+	wasmH, nWasm := opener == 9 || r.Chance(1, 3), 0
 	for b := 0; b < nb; b++ {
 		blk := c01Block{Dt: 5}
+		if wasmH && b == 0 {
+			nWasm = r.Range(3, 6)
+			blk.Ops = append(blk.Ops, c01Op{Kind: "wasmdeploy", A: r.Intn(nUsers), C: nWasm})
+			for i := 0; i < nWasm; i++ {
+				blk.Ops = append(blk.Ops, c01Op{Kind: "dgreg", A: i, B: next()})
+			}
+		}
+		if wasmH && b > 0 && (opener == 9 || r.Chance(1, 2)) {
+			for i, k := 0, r.Intn(3); i < k && b > 1; i++ { // move some registrations to new fresh withdrawers
+				blk.Ops = append(blk.Ops, c01Op{Kind: "dgreg", A: r.Intn(nWasm), B: next()})
+			}
+			var l []int
+			for i, k, st := 0, r.Range(2, nWasm), r.Intn(nWasm); i < k; i++ {
+				l = append(l, (st+i)%nWasm)
+			}
+			blk.Ops = append(blk.Ops, c01Op{Kind: "wasmexec", A: r.Intn(nUsers), L: l})
+		}
 		if r.Chance(1, 6) {
 			blk.Dt = 90_000 // cross a day: epochs + inflation
 		}
@@ -2098,12 +2185,12 @@ func TestC01(t *testing.T) {
 	rng := NewRng(cfg.Seed)
 	for i := 0; i < cfg.N; i++ {
 		opener := 0
-		if i < 8 {
+		if i < 9 {
 			opener = i + 1
 		}
 		in := genDiff(rng.Fork(), opener)
 		in.Child = i < 3 || (cfg.Tier == "thorough" && i%2 == 0)
-		if opener == 8 || (i > 8 && i%4 == 1) {
+		if opener == 8 || (i > 9 && i%4 == 1) {
 			// a fourth in-process replica with injected wall-clock delays
 			lr := rng.Fork()
 			in.Lag = &lagPlan{BaseUs: 50 + lr.Intn(400), Every: 20 + lr.Intn(80), StallMs: lr.Range(1100, 2000), Stalls: 2}
